@@ -141,8 +141,10 @@ func fromHex(c byte) byte {
 
 // isUnreserved reports whether r is an unreserved character per RFC 3986 §2.3.
 func isUnreserved(r rune) bool {
-	return unicode.IsLetter(r) || unicode.IsDigit(r) ||
-		r == '-' || r == '.' || r == '_' || r == '~'
+	// ALPHA / DIGIT are ASCII only: a percent-encoded byte >= 0x80 (e.g. %E9) is
+	// not a character and must stay encoded.
+	return r < unicode.MaxASCII && (unicode.IsLetter(r) || unicode.IsDigit(r) ||
+		r == '-' || r == '.' || r == '_' || r == '~')
 }
 
 const hex = "0123456789ABCDEF"
